@@ -45,7 +45,7 @@ def gen_mv(rng, d, canon, pga_point_grade=None, allow_array=True, arm=None):
         m['dtype'] = 'int64'
         m['vals'] = [gen_value(rng, intonly=True) for _ in keys]
     if allow_array and rng.random() < 0.15:
-        shape = rng.choice([[2], [3], [2, 2]])
+        shape = rng.choice([[2], [3], [2, 2], [1], [1, 2]])
         size = 1
         for s in shape:
             size *= s
@@ -129,7 +129,8 @@ def gen_trace20(rng, tier='quick'):
                  single_callable=rng.choice([False] * 8 + ['lazy', 'eager']),
                  latency=dict(base=rng.choice([0.001, 0.004]), jitter=rng.choice([0.0, 0.01, 0.06]), p_slow=rng.choice([0, 0.1, 0.3])),
                  p_dup=rng.choice([0, 0, 0.1, 0.3]), float32=rng.random() < 0.8,
-                 rerender_on_change=rng.random() < 0.5, max_reports=rng.choice([10, 25, 40]))
+                 rerender_on_change=rng.random() < 0.5, max_reports=rng.choice([10, 25, 40]),
+                 p_short=rng.choice([0, 0, 0, 0.15]))
     if top_array:
         world['allow_misaligned'] = True       # (kept as a label: worlds with an expanded top-level subject)
     if places and rng.random() < 0.8:
